@@ -250,6 +250,32 @@ def call_sites(P, pred, fns=None):
     return out
 
 
+import re as _re
+
+
+def _generics_of(P, f):
+    seen = 0
+    out = list(f.j.get("generics") or [])
+    while f is not None and f.kind == "Closure" and seen < 8:
+        f = P.fns.get(f.j.get("parent_key"))
+        seen += 1
+        if f is not None:
+            out += list(f.j.get("generics") or [])
+    return out
+
+
+def _same_head(impl_self, call_self):
+    """Same outer type constructor (generic arguments ignored)."""
+    h = lambda x: x.lstrip("&").replace("mut ", "").split("<")[0].strip()
+    a, b = h(impl_self), h(call_self)
+    if a == b:
+        return True
+    # arrays / slices: `[u8; N]` impls apply to `[u8; 32]`
+    if a.startswith("[") and b.startswith("["):
+        return a.split(";")[0] == b.split(";")[0]
+    return False
+
+
 def reachable_fns(P, roots, stop=()):
     """Crate-local call graph closure (trait-default methods + impl overrides by name)."""
     by_name = defaultdict(list)
@@ -282,9 +308,13 @@ def reachable_fns(P, roots, stop=()):
             if r and r.get("key") in P.fns:
                 st.append(P.fns[r["key"]])
             if c.get("trait") and c.get("local") is not None:
+                sty = c.get("self_ty") or ""
+                gens = set(_generics_of(P, f)) | {"Self"}
+                toks = set(_re.findall(r"[A-Za-z_][A-Za-z0-9_]*", sty))
+                abstract = bool(toks & gens) or not sty
                 for g in impls_of.get("%s::%s" % (c["trait"], c["name"]), []):
-                    # only crate-local traits, or foreign traits invoked on crate types
-                    st.append(g)
+                    if abstract or _same_head(g.impl_self or "", sty):
+                        st.append(g)
     return seen
 
 
